@@ -40,22 +40,22 @@ open Adeu.Doc in
 /-- A target that is an exact piece of the raw extracted text and touches no deleted text is located at its
 first occurrence there, with exactly its own length: no accepted-view lookup, no fuzzy matcher, whatever the
 recorded results of the non-literal matchers are. -/
-theorem C02_located_where_read (s : Sess) (e : HEdit) (i : Nat)
+theorem C02_located_where_read (s : Sess) (e : HEdit) (i : Nat) (hcm : s.cmap = commentsMap s.doc)
     (h : Markup.find e.target (extractText false s.doc) = some i)
     (hd : touchesDeletion (s.spans false) i (i + e.target.length) = false) :
     locate s e = some ⟨false, i, e.target.length⟩ := by
-  rw [← spans_text_eq_extractText] at h
+  rw [← spans_text_eq_extractText s _ hcm] at h
   exact locate_exact_raw s e i h hd
 
 open Adeu.Doc in
 /-- A target that runs across tracked-deleted text — an exact piece of the accepted view only — is located at
 its first occurrence in the accepted view, before any fuzzy lookup in either view. -/
-theorem C02_located_in_accepted_view (s : Sess) (e : HEdit) (i : Nat)
+theorem C02_located_in_accepted_view (s : Sess) (e : HEdit) (i : Nat) (hcm : s.cmap = commentsMap s.doc)
     (h1 : Markup.find e.target (extractText false s.doc) = none)
     (h2 : Markup.find (Markup.replaceSmart e.target) (Markup.replaceSmart (extractText false s.doc)) = none)
     (h : Markup.find e.target (extractText true s.doc) = some i) :
     locate s e = some ⟨true, i, e.target.length⟩ := by
-  rw [← spans_text_eq_extractText] at h1 h2 h
+  rw [← spans_text_eq_extractText s _ hcm] at h1 h2 h
   exact locate_exact_clean s e i h1 h2 h
 
 example : trim pyIsSpace "Hello big world".toList "Hello small world".toList = (6, 6) := by decide
